@@ -2,6 +2,7 @@ import JominiModel.Model.BinTape
 import JominiModel.Proofs.BinTape
 import JominiModel.Proofs.BinTapeEq
 import JominiModel.Proofs.BinTapeWf
+import JominiModel.Proofs.BinTapeFaithful
 /-
 C03 — the binary tape mirrors the token stream; the fast paths are unobservable.
 Only property theorems live here; helper lemmas are in `Proofs/BinTape*.lean`.
@@ -106,5 +107,46 @@ theorem C03_delimited (opt : Bool) (data : Bytes) (toks : Tape) (h : parse opt d
 
 example : ∃ toks, parse true [0x82, 0x2d, 0x01, 0x00, 0x03, 0x00, 0x0c, 0x00, 5, 0, 0, 0, 0x04, 0x00] = .ok toks ∧
     toks = [.token 0x2d82, .array 3, .i32 5, .end_ 1] := ⟨_, rfl, rfl⟩
+
+/- **Faithfulness, full statement (not yet proved beyond the flat fragment):**
+
+    theorem C03_faithful (doc : Fields) (hw : doc.wfDoc = true) (hg : no ghost `{}` directly after a `{`) :
+        parse false doc.encode = .ok (tapeOfBin doc)
+
+  for the document model of `Spec/BinTapeDoc.lean` (scalars of all ten binary types as keys and
+  values, rgb blocks, nested objects and arrays, ghost objects), and the same with object→array
+  mixed containers.  Missing: the mutual induction over `Val`/`Fields`/`Vals` (container bodies:
+  `OpenFirst → OpenSecond → '=' → Object`, array elements, the `closeTo` state after a nested
+  close, ghosts in front of the first key of a nested object, which go through the only_empties
+  rewrite).  Until then that clause is decided by the correspondence check (`btexp` cases: the
+  harness compares the real parser with the independent Rust transcription `tape_of(doc)` on every
+  generated document x encoding, the model with the real parser) and by the `example` below. -/
+
+/-- Faithfulness on flat documents: for every document whose values are all scalars — keys and values
+of any of the ten binary scalar types, any number of ghost `{}` objects in front of every key
+but the first — the reference parser (hence, by `C03_fast_eq_reference`, the optimised one)
+returns exactly the document's keys and values with their binary types and payloads, ghosts dropped. -/
+theorem C03_faithful_partial (doc : Fields) (hflat : doc.flat = true) (hw : doc.wfDoc = true) (opt : Bool) :
+    parse opt doc.encode = .ok (tapeOfBin doc) := by
+  cases opt
+  · exact faithful_flat doc hflat hw
+  · rw [C03_fast_eq_reference]; exact faithful_flat doc hflat hw
+
+/-- hypotheses satisfiable: `id = I32 5  {} "a" = U64 7` -/
+example : (Fields.cons 0 (.id 0x2d82) (.sc (.i32 [5, 0, 0, 0]))
+    (.cons 1 (.quoted [97]) (.sc (.u64 [7, 0, 0, 0, 0, 0, 0, 0])) .nil)).flat = true ∧
+    (Fields.cons 0 (.id 0x2d82) (.sc (.i32 [5, 0, 0, 0]))
+    (.cons 1 (.quoted [97]) (.sc (.u64 [7, 0, 0, 0, 0, 0, 0, 0])) .nil)).wfDoc = true := by decide
+
+/-- the full statement holds on a nested witness (object with ghost, array, rgb in both positions,
+empty containers): evaluated, not proved in general -/
+example :
+    let doc : Fields :=
+      .cons 0 (.id 0x2d82) (.obj (.cons 0 (.quoted [97]) (.arr (.cons (.sc (.i32 [1, 0, 0, 0]))
+          (.cons (.rgb [1, 0, 0, 0] [2, 0, 0, 0] [3, 0, 0, 0] none) .nil)))
+        (.cons 2 (.i32 [5, 0, 0, 0]) (.rgb [1, 0, 0, 0] [2, 0, 0, 0] [3, 0, 0, 0] (some [4, 0, 0, 0])) .nil)))
+      (.cons 1 (.id 11) (.arr .nil) (.cons 0 (.unquoted [98, 99]) (.obj .nil) .nil))
+    parse false doc.encode = .ok (tapeOfBin doc) ∧ parse true doc.encode = .ok (tapeOfBin doc) := by
+  exact ⟨rfl, rfl⟩
 
 end Jomini.Props.C03
